@@ -2,3 +2,4 @@ pub mod c01;
 pub mod c08;
 pub mod c10;
 pub mod c14;
+pub mod c15;
